@@ -2,7 +2,7 @@
    checker to OCaml.  Only ExtrOcamlBasic is used (bool, option, unit, list, prod, sumbool as
    OCaml's own types); nat, positive, N and Z stay Coq's own (unary / binary) datatypes. *)
 From Coq Require Import ZArith List Extraction ExtrOcamlBasic.
-From HB Require Import RsPrelude Sse2 Gen Group Raw Map Check AssocSpec Triangular SetAlg SetOps Table MultisetSpec Clone Par Serde Addr.
+From HB Require Import RsPrelude Sse2 Gen Group Raw Map Check AssocSpec Triangular SetAlg SetOps Table MultisetSpec Clone Par Serde Addr Entry2.
 
 Extraction Language OCaml.
 
@@ -25,4 +25,5 @@ Extraction "../ocaml/extracted/hb.ml"
   SetAlg.is_disjoint SetAlg.set_eq SetAlg.difference_size_hint SetOps.set2_step
   Table.table_step MultisetSpec.tspec_accepts MultisetSpec.meq MultisetSpec.msub
   Clone.clone_table Clone.clone_from Clone.map_eq Par.split_leaves Serde.deser_map
-  Addr.bucket_ptr Addr.bucket_as_ptr Addr.elem_range Addr.ctrl_align.
+  Addr.bucket_ptr Addr.bucket_as_ptr Addr.elem_range Addr.ctrl_align
+  Entry2.rustc_step Entry2.raw_step Entry2.raw_get.
